@@ -117,9 +117,13 @@ def insertSorted (n : String) : List String → List String
 def sortedNames (xs : List String) : List String :=
   xs.foldr (fun n acc => if acc.contains n then acc else insertSorted n acc) []
 
+/-- the sorted `(name, symbols)` vector built from the keys of the scope's map in iteration order `keys` -/
+def groupsOfKeys (keys : List String) (syms : List (String × Sym)) : List (String × List Sym) :=
+  (sortedNames keys).map fun n => (n, (syms.filter (fun p => p.1 == n)).map (·.2))
+
 /-- the sorted `(name, symbols)` vector of a scope -/
 def groupsOf (syms : List (String × Sym)) : List (String × List Sym) :=
-  (sortedNames (syms.map (·.1))).map fun n => (n, (syms.filter (fun p => p.1 == n)).map (·.2))
+  groupsOfKeys (syms.map (·.1)) syms
 
 def scopeIds (inp : Input) : List (Option Nat) :=
   none :: (List.range inp.nss.length).map some
@@ -182,6 +186,19 @@ def hasDup : List Sym → Bool
   | [] => false
   | s :: r => r.contains s || hasDup r
 
+def numberLocals : List String → Nat → List Named
+  | [], _ => []
+  | n :: r, i => ⟨⟨.localVar, i⟩, none, n⟩ :: numberLocals r (i + 1)
+
+/-- everything after the `for scope in &scopes` loop: collect, duplicate check, local pass -/
+def finish (reserved : List String) (inp : Input) (scopes : List (Option Nat × St)) : Except String (List Named) :=
+  let globalsOut : List Named :=
+    scopes.flatMap fun p => p.2.out.map fun q => ⟨q.1, p.1, q.2⟩
+  if hasDup (globalsOut.map (·.sym)) then .error "panic:duplicate name for" else
+  match assignLocals inp.locals (reserved ++ scopes.flatMap (fun p => p.2.gen)) inp.locals with
+  | .error e => .error e
+  | .ok ls => .ok (globalsOut ++ numberLocals ls 0)
+
 /-- `NameMap::build` -/
 def build (reserved : List String) (inp : Input) : Except String (List Named) :=
   match checkScopes inp with
@@ -189,18 +206,33 @@ def build (reserved : List String) (inp : Input) : Except String (List Named) :=
   | .ok () =>
     match runScopes reserved inp (scopeIds inp) with
     | .error e => .error e
-    | .ok scopes =>
-      let globalsOut : List Named :=
-        scopes.flatMap fun (s, st) => st.out.map fun (sym, n) => ⟨sym, s, n⟩
-      if hasDup (globalsOut.map (·.sym)) then .error "panic:duplicate name for" else
-      let usedAll := reserved ++ scopes.flatMap (fun (_, st) => st.gen)
-      match assignLocals inp.locals usedAll inp.locals with
+    | .ok scopes => finish reserved inp scopes
+
+/-! ### the same function with the two hash-iteration orders made explicit (used by C07)
+
+`for scope in &scopes` visits the scopes in the iteration order `order` of a `HashMap`, and
+`Vec::from_iter(scope.1.iter())` lists the keys of a scope in the iteration order `keys scope` of another
+`HashMap` before they are sorted.  `build` is the instance `order = scopeIds`, `keys = push order`. -/
+
+def runScopesWith (reserved : List String) (inp : Input) (keys : Option Nat → List String) :
+    List (Option Nat) → Except String (List (Option Nat × St))
+  | [] => .ok []
+  | s :: r =>
+    match assignGroups ⟨reserved, [], []⟩ (groupsOfKeys (keys s) (scopeSyms inp s)) with
+    | .error e => .error e
+    | .ok st =>
+      match runScopesWith reserved inp keys r with
       | .error e => .error e
-      | .ok ls =>
-        let rec number : List String → Nat → List Named
-          | [], _ => []
-          | n :: r, i => ⟨⟨.localVar, i⟩, none, n⟩ :: number r (i + 1)
-        .ok (globalsOut ++ number ls 0)
+      | .ok rest => .ok ((s, st) :: rest)
+
+def buildWith (reserved : List String) (inp : Input) (order : List (Option Nat))
+    (keys : Option Nat → List String) : Except String (List Named) :=
+  match checkScopes inp with
+  | .error e => .error e
+  | .ok () =>
+    match runScopesWith reserved inp keys order with
+    | .error e => .error e
+    | .ok scopes => finish reserved inp scopes
 
 def lookup (names : List Named) (s : Sym) : Option Named := names.find? (fun n => n.sym == s)
 
